@@ -17,7 +17,13 @@ with atheris.instrument_imports(include=["pyjelly"]):
 from fuzz.fuzz_parse import mutate  # noqa: E402  (structure-aware mutator; needs argv[1] popped first)
 from vlib import diffcheck  # noqa: E402
 
-STATS = {"valid": 0, "invalid": 0, "skip": 0}
+MODE = "both"
+if __name__ == "__main__" and len(sys.argv) > 1 and sys.argv[1] in ("valid", "invalid", "both"):
+    MODE = sys.argv[1]
+    del sys.argv[1]
+ASSERT_ON = ("valid", "invalid") if MODE == "both" else (MODE,)
+STATS = {"valid": 0, "invalid": 0, "skip": 0, "execs": 0}
+STATS_FILE = os.environ.get("FUZZ_STATS")
 
 
 class DifferentialFailure(Exception):
@@ -25,8 +31,14 @@ class DifferentialFailure(Exception):
 
 
 def run(data: bytes):
-    v, c = diffcheck.check_bytes(data)
+    v, c = diffcheck.check_bytes(data, assert_on=ASSERT_ON)
     STATS[c[0]] += 1
+    STATS["execs"] += 1
+    if STATS_FILE and STATS["execs"] % 5000 == 0:
+        import json
+
+        with open(STATS_FILE, "w") as fh:
+            json.dump(STATS, fh)
     if v is not None:
         raise DifferentialFailure(f"{v.signature}: {v.message}")
 
